@@ -467,6 +467,100 @@ void run_intrusive(Ctx &c) {
 	if(did_splice) c.tag("splice-nonempty"); if(did_mid_erase) c.tag("mid-erase"); if(did_mid_insert) c.tag("mid-insert");
 }
 
+// ---- intrusive_list with an owning owner_pointer ----------------------------------------------
+// The list is generic over (owner_pointer, borrow_pointer); with an owner that gives up its referent when it is moved from
+// (a reference-counting pointer, as a kernel would use) every std::move inside the list really transfers ownership.
+struct ONode;
+struct RefPtr {
+	ONode *p = nullptr;
+	RefPtr() = default;
+	RefPtr(decltype(nullptr)) {}
+	explicit RefPtr(ONode *n);
+	RefPtr(const RefPtr &o);
+	RefPtr(RefPtr &&o) noexcept : p(o.p) { o.p = nullptr; }
+	RefPtr &operator=(RefPtr o) noexcept { std::swap(p, o.p); return *this; }
+	~RefPtr();
+	explicit operator bool() const { return p != nullptr; }
+	operator ONode *() const { return p; }
+	ONode *operator->() const { return p; }
+};
+struct ONode {
+	int id; int refs;
+	frg::intrusive_list_hook<RefPtr, ONode *> hook;
+	ONode() { id = 0; refs = 0; }
+};
+RefPtr::RefPtr(ONode *n) : p(n) { if(p) p->refs++; }
+RefPtr::RefPtr(const RefPtr &o) : p(o.p) { if(p) p->refs++; }
+RefPtr::~RefPtr() { if(p) p->refs--; }
+} // namespace
+namespace frg {
+template<> struct intrusive_traits<ONode, RefPtr, ONode *> { static ONode *decay(const RefPtr &o) { return o.p; } };
+}
+namespace {
+using OList = frg::intrusive_list<ONode, frg::locate_member<ONode, frg::intrusive_list_hook<RefPtr, ONode *>, &ONode::hook>>;
+
+void run_intrusive_owned(Ctx &c) {
+	auto &t = c.t;
+	constexpr int NN = 12;
+	ONode *nodes = (ONode *)c.raw(sizeof(ONode) * NN);
+	memset((void *)nodes, 0xA5, sizeof(ONode) * NN);
+	for(int i = 0; i < NN; i++) { new (&nodes[i]) ONode; nodes[i].id = i; }
+	OList *L[2] = {c.make<OList>(), c.make<OList>()};
+	std::vector<int> ref[2];
+	std::vector<int> where(NN, -1);
+	c.op("intrusive_list with a reference-counting owner_pointer");
+	bool mid = false, spliced = false;
+	auto check = [&]() {
+		for(int s = 0; s < 2; s++) {
+			VCHECK(c, "C13", L[s]->empty() == ref[s].empty(), "owned list %d: empty() is %d with %zu nodes", s, (int)L[s]->empty(), ref[s].size());
+			size_t n = 0;
+			for(auto it = L[s]->begin(); it != L[s]->end(); ++it, ++n) {
+				VCHECK(c, "C13", n < ref[s].size(), "owned list %d: iteration yields more than %zu nodes", s, ref[s].size());
+				VCHECK(c, "C13", (*it)->id == ref[s][n], "owned list %d: position %zu is node %d, reference %d", s, n, (*it)->id, ref[s][n]);
+			}
+			VCHECK(c, "C13", n == ref[s].size(), "owned list %d: iteration yields %zu nodes, reference %zu", s, n, ref[s].size());
+			if(!ref[s].empty()) {
+				VCHECK(c, "C13", L[s]->front() == &nodes[ref[s].front()] && L[s]->back() == &nodes[ref[s].back()], "owned list %d: front()/back() are not the reference's", s);
+				size_t k = ref[s].size();
+				for(ONode *p = L[s]->back(); p; p = p->hook.previous) { VCHECK(c, "C13", k > 0 && p->id == ref[s][k - 1], "owned list %d: the back links reach node %d at reverse position %zu", s, p->id, ref[s].size() - k); k--; }
+				VCHECK(c, "C13", k == 0, "owned list %d: the back links reach %zu of %zu nodes", s, ref[s].size() - k, ref[s].size());
+			}
+		}
+		for(int i = 0; i < NN; i++) {
+			VCHECK(c, "C13", nodes[i].hook.in_list == (where[i] >= 0), "node %d: in_list is %d, the reference says it is %s", i, (int)nodes[i].hook.in_list, where[i] >= 0 ? "linked" : "not linked");
+			VCHECK(c, "C13", nodes[i].refs == (where[i] >= 0 ? 1 : 0), "node %d is owned %d time(s); the reference says %d (one owner per linked node: the list)", i, nodes[i].refs, where[i] >= 0 ? 1 : 0);
+		}
+		c.check_san("C13");
+	};
+	unsigned nops = 1 + t.pick(30);
+	for(unsigned i = 0; i < nops; i++) {
+		int s = t.pick(2);
+		int fresh = -1; for(int k = 0; k < NN; k++) { int cand = (k + (int)t.pick(NN)) % NN; if(where[cand] < 0) { fresh = cand; break; } if(k > 2) break; }
+		for(int k = 0; fresh < 0 && k < NN; k++) if(where[k] < 0) fresh = k;
+		switch(t.pick(9)) {
+		case 0: if(fresh >= 0) { c.op("O%d.push_back(#%d)", s, fresh); L[s]->push_back(RefPtr(&nodes[fresh])); ref[s].push_back(fresh); where[fresh] = s; } break;
+		case 1: if(fresh >= 0) { c.op("O%d.push_front(#%d)", s, fresh); if(!ref[s].empty()) c.tag("owned-push_front-nonempty"); L[s]->push_front(RefPtr(&nodes[fresh])); ref[s].insert(ref[s].begin(), fresh); where[fresh] = s; } break;
+		case 2: case 3: if(fresh >= 0) { size_t pos = t.pick(ref[s].size() + 1); c.op("O%d.insert(pos %zu, #%d)", s, pos, fresh);
+			auto it = pos == ref[s].size() ? L[s]->end() : L[s]->iterator_to(&nodes[ref[s][pos]]);
+			if(pos > 0 && pos < ref[s].size()) { mid = true; c.tag("owned-insert-middle"); }
+			L[s]->insert(it, RefPtr(&nodes[fresh])); ref[s].insert(ref[s].begin() + pos, fresh); where[fresh] = s; } break;
+		case 4: if(!ref[s].empty()) { size_t pos = t.pick(ref[s].size()); c.op("O%d.erase(pos %zu)", s, pos); { RefPtr r = L[s]->erase(L[s]->iterator_to(&nodes[ref[s][pos]]));
+			VCHECK(c, "C13", r.p == &nodes[ref[s][pos]], "erase returned the owner of node %d", r.p ? r.p->id : -1); VCHECK(c, "C13", r.p && r.p->refs == 1, "erase: the returned owner is not the only one (%d)", r.p ? r.p->refs : -1); }
+			where[ref[s][pos]] = -1; ref[s].erase(ref[s].begin() + pos); } break;
+		case 5: if(!ref[s].empty()) { c.op("O%d.pop_front()", s); { RefPtr r = L[s]->pop_front(); VCHECK(c, "C13", r.p == &nodes[ref[s].front()], "pop_front returned node %d", r.p ? r.p->id : -1); } where[ref[s].front()] = -1; ref[s].erase(ref[s].begin()); } break;
+		case 6: if(!ref[s].empty()) { c.op("O%d.pop_back()", s); { RefPtr r = L[s]->pop_back(); VCHECK(c, "C13", r.p == &nodes[ref[s].back()], "pop_back returned node %d", r.p ? r.p->id : -1); } where[ref[s].back()] = -1; ref[s].pop_back(); } break;
+		case 7: if(t.pick(3) == 0) { c.op("O%d.clear()", s); L[s]->clear(); for(int n : ref[s]) where[n] = -1; ref[s].clear(); } break;
+		default: { c.op("O%d.splice(end, O%d)", s, 1 - s); if(!ref[0].empty() && !ref[1].empty()) spliced = true; L[s]->splice(L[s]->end(), *L[1 - s]); for(int n : ref[1 - s]) { ref[s].push_back(n); where[n] = s; } ref[1 - s].clear(); break; }
+		}
+		check();
+	}
+	c.op("clear both");
+	L[0]->clear(); L[1]->clear(); ref[0].clear(); ref[1].clear(); for(int &w : where) w = -1;
+	check();
+	c.nontrivial = mid || spliced;
+	c.tag("owned-intrusive-list");
+}
+
 // ---- assignment from a source that the destination owns ----------------------------------
 // node { id, kids }: parent.kids = parent.kids[k].kids (copy and move). The source vector lives in an element of the
 // destination; the model computes the result from a deep copy taken before the call.
@@ -505,8 +599,16 @@ void run_nested(Ctx &c) {
 		while(!m->kids.empty() && t.pick(3) == 0) { size_t k = t.pick(m->kids.size()); n = &n->kids[k]; m = &m->kids[k]; }
 		if(m->kids.empty()) { int id = next++; c.op("node %d: emplace_back(%d)", m->id, id); n->kids.emplace_back(id); m->kids.push_back(MNode{id, {}}); compare(c, *root, mroot, "emplace_back"); continue; }
 		size_t k = t.pick(m->kids.size());
-		unsigned op = t.pick(4);
-		if(op == 0) { c.op("node %d: kids = kids[%zu].kids (copy)", m->id, k); c.tag("assign-from-owned-copy"); std::vector<MNode> tmp = m->kids[k].kids; n->kids = n->kids[k].kids; m->kids = tmp; did = true; }
+		unsigned op = t.pick(6);
+		auto count = [&](auto &&self, const MNode &x) -> size_t { size_t n = 1; for(auto &k : x.kids) n += self(self, k); return n; };
+		if(op >= 4) {      // the argument is the object that owns the container: the new element is a copy of the state before the call
+			if(count(count, mroot) > 60) continue;
+			c.tag("append-own-owner");
+			MNode tmp = *m;
+			if(op == 4) { c.op("node %d: kids.push(*this node)", m->id); n->kids.push(*n); } else { c.op("node %d: kids.emplace_back(*this node)", m->id); n->kids.emplace_back(*n); }
+			m->kids.push_back(tmp);
+		}
+		else if(op == 0) { c.op("node %d: kids = kids[%zu].kids (copy)", m->id, k); c.tag("assign-from-owned-copy"); std::vector<MNode> tmp = m->kids[k].kids; n->kids = n->kids[k].kids; m->kids = tmp; did = true; }
 		else if(op == 1) { c.op("node %d: kids = move(kids[%zu].kids)", m->id, k); c.tag("assign-from-owned-move"); std::vector<MNode> tmp = std::move(m->kids[k].kids); n->kids = std::move(n->kids[k].kids); m->kids = tmp; did = true; }
 		else if(op == 2) { c.op("node %d: kids.push(kids[%zu]) (element copied into its own container)", m->id, k); c.tag("push-own-element-deep"); MNode tmp = m->kids[k]; n->kids.push(n->kids[k]); m->kids.push_back(tmp); }
 		else { c.op("node %d: kids[%zu].kids = kids (child receives a copy of the vector that holds it)", m->id, k); c.tag("assign-container-to-owned"); std::vector<MNode> tmp = m->kids; n->kids[k].kids = n->kids; m->kids[k].kids = tmp; }
@@ -523,7 +625,7 @@ void run_nested(Ctx &c) {
 } // namespace
 
 void verif_case(Ctx &c) {
-	unsigned kind = c.t.pick(24);
+	unsigned kind = c.t.pick(25);
 	c.tagf("kind-%u", kind);
 	switch(kind) {
 	case 18: run_vector<Braced>(c); return;
@@ -549,6 +651,7 @@ void verif_case(Ctx &c) {
 	case 9: run_stack<Tracked>(c); break;
 	case 10: run_list<int>(c); break;
 	case 11: run_list<Tracked>(c); break;
+	case 24: run_intrusive_owned(c); return;
 	default: if(c.focus() == "C16") { run_list<Tracked>(c); } else run_intrusive(c); break;
 	}
 }
